@@ -1,6 +1,8 @@
 """C10 — REQUIRED parameters are filled from the config or the call fails cleanly."""
 import gen_gin as G
-from gindom import run_impl, to_driver, compare  # noqa: F401
+import core
+import gindom
+from gindom import to_driver  # noqa: F401
 from props.c01 import tally, shrink, _overlay  # noqa: F401
 
 ID = 'C10'
@@ -51,13 +53,90 @@ def gen_case(rng):
   return {'dom': 'gin', 'ops': ops}
 
 
+METHOD_CASES = [{'dom': 'gin', 'kind': 'method', 'api': api, 'scope': sc, 'inherited': inh, 'ops': []}
+                for api in ('register', 'external') for sc in ('', 'a/b') for inh in (False, True)]
+
+
 def gen_cases(rng, tier, boost=1):
+  # registered methods (renamed to <class selector>.<method> when their class is registered): the same
+  # REQUIRED rules, and the same clean error, as for functions - a finite table on the real code
+  yield from METHOD_CASES
   n = (1500 if tier == 'quick' else 40000) * boost
   for _ in range(n):
     yield gen_case(rng)
 
 
+def run_method_case(case):
+  gin = core.fresh_gin()
+  g = {'gin': gin, '__name__': 'mm'}
+  base = ('class Base:\n  @gin.register\n  def fit(self, data, epochs=gin.REQUIRED, lr=0.1):\n    return (data, epochs, lr)\n'
+          if case['inherited'] else '')
+  body = ('  pass\n' if case['inherited'] else
+          '  @gin.register\n  def fit(self, data, epochs=gin.REQUIRED, lr=0.1):\n    return (data, epochs, lr)\n')
+  src = base + 'class Model' + ('(Base)' if case['inherited'] else '') + ':\n  def __init__(self):\n    pass\n' + body
+  exec(src, g)  # pylint: disable=exec-used
+  cls = g['Model']
+  if case['api'] == 'register':
+    gin.register(cls)
+    made = gin.get_configurable(cls)
+  elif case['api'] == 'external':
+    made = gin.external_configurable(cls)
+  else:
+    made = gin.configurable(cls)
+  facts = {}
+  import contextlib
+
+  def call(*a, **k):
+    with contextlib.ExitStack() as st:
+      if case['scope']:
+        st.enter_context(gin.config_scope(case['scope']))
+      return made().fit(*a, **k)
+  for label, args in (('positional_marker', (gin.REQUIRED,)), ('both_markers', (gin.REQUIRED, gin.REQUIRED))):
+    try:
+      r = call(*args)
+      facts[label] = f'returned {r!r}'
+    except RuntimeError as e:
+      import re
+      m = re.search(r'not provided in config: (\[.*?\])', str(e))
+      named = re.search(r'Required bindings for `([^`]*)`', str(e))
+      facts[label] = {'missing': sorted(re.findall(r"'([^']*)'", m.group(1))) if m else None,
+                      'named': named.group(1) if named else None}
+    except Exception as e:  # pylint: disable=broad-except
+      facts[label] = f'{type(e).__name__}: {e}'[:160]
+  pre = (case['scope'].split('/')[0] + '/') if case['scope'] else ''
+  gin.bind_parameter(pre + 'Model.fit.data', 7)
+  gin.bind_parameter('Model.fit.epochs', 3)
+  try:
+    facts['after_binding'] = list(call(gin.REQUIRED))
+  except Exception as e:  # pylint: disable=broad-except
+    facts['after_binding'] = f'{type(e).__name__}: {e}'[:160]
+  return {'out': [], 'facts': facts}
+
+
+def run_impl(case):
+  if case.get('kind') == 'method':
+    return run_method_case(case)
+  return gindom.run_impl(case)
+
+
+def compare(case, impl, model):
+  if case.get('kind') == 'method':
+    return None
+  return gindom.compare(case, impl, model)
+
+
 def oracle(case, impl):
+  if case.get('kind') == 'method':
+    f = impl['facts']
+    want = {'missing': ['data', 'epochs'], 'named': 'fit'}
+    for label in ('positional_marker', 'both_markers'):
+      got = f.get(label)
+      if not isinstance(got, dict) or got.get('missing') != want['missing'] or not (got.get('named') or '').endswith('fit'):
+        return (f'registered method ({case["api"]}, scope {case["scope"]!r}): with data and epochs unbound the call '
+                f'must fail with the clean error naming them; got {got}')
+    if f.get('after_binding') != [7, 3, 0.1]:
+      return f'registered method: after binding data and epochs the call should receive them, got {f.get("after_binding")}'
+    return None
   regs, binds = {}, {}
   for k, (op, res) in enumerate(zip(case['ops'], impl['out'])):
     if op['op'] == 'register':
@@ -135,6 +214,12 @@ def G_valid(s):
 
 
 def nontrivial(case, impl):
+  if case.get('kind') == 'method':
+    return True
+  return _nontrivial(case, impl)
+
+
+def _nontrivial(case, impl):
   for op, res in zip(case['ops'], impl['out']):
     if op['op'] == 'call' and ('ok' in res or res.get('err') == 'RuntimeError'):
       if any(v == G.REQ for v in op['args']) or any(v == G.REQ for _, v in op['kwargs']):
